@@ -1,16 +1,18 @@
 #!/bin/sh
 # usage: tools/run_demo.sh <Cxx> <n> [repo dir]  — runs a seeded mutant's demonstration against a repo tree (default /repo)
 P=$1; N=$2; REPO=${3:-/repo}
-SRC=/tmp/mut/$P/mutants/$N/demo
-[ -d "$SRC" ] || SRC=/verif/seeded/$P-$N/demo
+SRC=/verif/seeded/$P-$N/demo
+[ -d "$SRC" ] || SRC=/tmp/mut/$P/mutants/$N/demo
+FLAGS=""
+[ -f "$SRC/../demo.flags" ] && FLAGS=$(cat "$SRC/../demo.flags")
 export GOFLAGS=-mod=mod GOPROXY=off GOSUMDB=off GOTOOLCHAIN=local GOWORK=off
 W=$(mktemp -d /tmp/demo.XXXXXX)
 trap 'rm -rf "$W"' EXIT
 if [ -f "$SRC/go.mod" ]; then
   cp -r "$SRC" "$W/demo"
   cd "$W/demo" || exit 2
-  sed -i -E "s#=> (\.\./\.\./\.\./|/tmp/mut/$P/)#=> $REPO/#" go.mod
-  timeout 300 go test -count=1 ./... 2>&1 | tail -${TAIL:-6}
+  sed -i -E "s#=> (\.\./\.\./\.\./|/tmp/mut/$P/|/repo/)#=> $REPO/#" go.mod
+  timeout 600 go test $FLAGS -count=1 ./... 2>&1 | tail -${TAIL:-6}
 else
   # in-package test file(s): copy into the module the README names (guess from package clause)
   pkg=$(grep -h '^package ' "$SRC"/*.go | head -1 | awk '{print $2}')
@@ -18,5 +20,5 @@ else
   cp -r "$REPO/$mod" "$W/$mod"; cp "$SRC"/*.go "$W/$mod/"
   cd "$W/$mod" || exit 2
   # module deps resolve as in the original module (cached versions) unless replaced
-  timeout 300 go test -vet=off -count=1 -run . ./ 2>&1 | tail -${TAIL:-6}
+  timeout 600 go test $FLAGS -vet=off -count=1 -run . ./ 2>&1 | tail -${TAIL:-6}
 fi
